@@ -1,10 +1,10 @@
-package c05
+package jslib
 
 // Lowerable constructs in the positions named by the property (receiver, callee, assignment target,
 // computed key, default value, loop head, class heritage, static/instance member, inside arrow /
 // async / generator, nested in each other). Operands are probes p(id, value) so that evaluation
 // count and order are observable. Every entry is a self-contained script; async entries log "done".
-var families = []string{
+var Families = []string{
 	// ---- optional chaining
 	`var o = { a: { b: function () { log("b", this === o.a); return { c: 1 }; } } }; log(p(1, o)?.a?.b()?.c, p(2, null)?.a.b.c(), p(3, o).x?.y.z, o?.["a"]?.["b"]?.().c);`,
 	`var o = { f: function () { return this === o; } }; log(o?.f(), (o?.f)(), (0, o?.f)?.call(undefined), o.f?.(), o["f"]?.(), (o.g)?.(), o.g?.(p(1, 1)), p(2, o)?.[p(3, "f")]?.(p(4, 0)));`,
